@@ -309,6 +309,7 @@ pub fn property() -> Property {
             flavor_sub!("ex-blocklist", Flavor::ExBlock, 800, 16000),
             flavor_sub!("ex-votes", Flavor::ExVotes, 800, 16000),
             gen_sub::<super::vaultx::VxCase>("vault", 1200, 24000, super::vaultx::strategy_c01, super::vaultx::run_c01),
+            gen_sub::<super::c01rwa::RwCase>("rwa", 1200, 24000, super::c01rwa::strategy, super::c01rwa::run),
         ],
         floors: vec![("nontrivial", 400, 8000), ("self_transfer", 500, 10000), ("zero_amount", 1000, 20000), ("overflow_attempt", 80, 1600), ("muxed_destination", 150, 3000)],
         assumptions: vec![
